@@ -352,7 +352,9 @@ def check(pid, tier, seed):
         prop_vo = os.path.join(COQ, "theories", cfg["prop_file"] + "o")
         prop_built = os.path.exists(prop_vo) and all(
             os.path.getmtime(prop_vo) >= os.path.getmtime(os.path.join(COQ, f)) for f in cone_files if os.path.exists(os.path.join(COQ, f)))
-        corr_built = all(os.path.exists(os.path.join(COQ, "theories", c + "o")) for c in cfg.get("corr_files", []))
+        def _fresh(vo, deps):
+            return os.path.exists(vo) and all(os.path.getmtime(vo) >= os.path.getmtime(os.path.join(COQ, f)) for f in deps if os.path.exists(os.path.join(COQ, f)))
+        corr_built = all(_fresh(os.path.join(COQ, "theories", c + "o"), cone(g, ["theories/" + c])) for c in cfg.get("corr_files", []))
         if not prop_built:
             m = re.findall(r'File "\./([^"]+)", line (\d+)[^\n]*\n(?:[^\n]*\n){0,6}?Error:[^\n]*(?:\n[^\n]+){0,8}', mout)
             errs = re.findall(r'(File "[^"]+", line \d+, characters [\d-]+:\nError:(?:\n?[^\n]+){1,10})', mout)
@@ -434,6 +436,23 @@ def check(pid, tier, seed):
             violations.append((rp, ""))
             found_input = True
             break
+    searched = None
+    if not found_input and meta is not None and (build_broken or corr_error or mismatches):
+        # search step: the oracle judges the implementation's recorded outputs of all generated cases directly
+        rp = os.path.join(replay_dir, f"{pid}-{seed}-s0.json")
+        rc, sout = sh([VENV_PY, os.path.join(ROOT, "harness", "driver.py"), "judgeall", cfg["harness"], "--dir", outdir,
+                       "--out", rp, "--max", "600"], timeout=1200, env=harness_env(), cwd=os.path.join(ROOT, "harness"))
+        try:
+            searched = json.loads(sout.strip().splitlines()[-1])
+        except Exception:  # noqa: BLE001
+            searched = dict(judged=0, found=False, detail="search failed: " + sout[-300:])
+        if searched.get("found") and os.path.exists(rp):
+            rep = json.load(open(rp))
+            rep.update(property=pid, kind="input", correspondence="search over all generated cases (oracle only)", seed=seed, tier=tier,
+                       canonical_input=rep.get("case"), how_to_run=f"python3 run.py {pid} --replay {os.path.relpath(rp, ROOT)}")
+            json.dump(rep, open(rp, "w"), indent=1, default=str)
+            violations.append((rp, ""))
+            found_input = True
     if mismatches and not found_input:
         r, idx = mismatches[0]
         case = json.load(open(os.path.join(outdir, r["json"])))[idx]
@@ -487,7 +506,7 @@ def check(pid, tier, seed):
             histograms=(meta or {}).get("histograms", {}),
             oracle_contract_checks=(meta or {}).get("oracle_contract_checks", {}),
             correspondence_shards=len(shard_results), correspondence_shards_evaluated=n_shards_ok,
-            model_impl_mismatches=len(mismatches), mismatches_judged=judged,
+            model_impl_mismatches=len(mismatches), mismatches_judged=judged, search_over_all_cases=searched,
             model_drift=[k for k in (finfo or {}).get("ast_hashes", {}) if False],
             known_findings_printed=kf_lines,
             build_problems=[f"{a}: {b}" for a, b, _ in build_broken],
